@@ -260,11 +260,11 @@ T_FOLD = T + "; inductive invariant of the streaming fold machines (TauFold) dis
 MANIFEST_TEXT = {
  "C01": {"level": "Trace validation of the life-cycle machine (spec/TauRule.tla): for seeded random rules (depth 3, up to 4 identifiers, lists, nested blocks, casts, quantifiers) every one of the 17 switch states is a separate object of one case whose denotation is bound by the first observation; TLC rejects any later verdict that differs and any optimise() that panics. Documents are generated in three modes (negation-free rules; documents on which every predicate is definite; unrestricted) so that most comparisons are strict; comparisons on indefinite documents under a negation are attributed to the recorded known findings about operand reordering. A fifth of the cases also call optimise() a second time with other switches (spec action ReOptimise: the identity). The optimiser IS transcribed pass by pass (spec/TauOpt.tla): TLC checks NoPanic / DenStable / EngInLang on a bounded universe (MC_Opt) and the transcription's prediction is compared with every recorded observation (model_drift, zero so far); it is never the judge, only the explanation of known findings. Random exploration beyond the MC_Opt universe, not exhaustive.",
          "note": COMMON_NOTE + "Needs no oracle (self-consistency); the language-layer oracle is evaluated as well but not counted here.", "technique": T},
- "C02": {"level": "The language layer spec/TauLang.tla (mapping = conjunction in written order, sequence = disjunction, pattern kinds, numbers, casts, quantifiers, nested mappings, three-valued condition) is evaluated by TLC on every recorded (rule, document) pair: the engine's verdict and three-valued result must lie in the admissible set. Seeded random rules and rule-directed documents (1.5k quick / 30k thorough cases); results the documentation leaves open are admissible sets, not guesses. Which rules are VALID is specified too: spec/TauType.tla (the static semantics of identifier bodies: key modifier x value kind, lists, nesting) decides the load outcome of every rule of an exhaustive small universe (MC_Type: 854 / 7,854 rules, with TLC-checked laws) and of 400 / 8k random well- and ill-typed bodies.",
+ "C02": {"level": "The language layer spec/TauLang.tla (mapping = conjunction in written order, sequence = disjunction, pattern kinds, numbers, casts, quantifiers, nested mappings, three-valued condition) is evaluated by TLC on every recorded (rule, document) pair: the engine's verdict and three-valued result must lie in the admissible set. Seeded random rules and rule-directed documents (1.5k quick / 30k thorough cases); results the documentation leaves open are admissible sets, not guesses. Which rules are VALID is specified too: spec/TauType.tla (the static semantics of identifier bodies: key modifier x value kind, lists, nesting) decides the load outcome of every rule of an exhaustive small universe (MC_Type: 854 / 7,854 rules, with TLC-checked laws) and of 400 / 8k random well- and ill-typed bodies. The textual layer of mapping KEYS is specified too (spec/TauKeyText.tla: engine layer = condition tokeniser, identifier runs re-joined with one blank, Pratt parse, classification of the root; language layer = the documented key forms NAME, int()/flt()/str()/not()/all()(NAME), of(NAME, N) with their meaning pinned): MC_Key enumerates every concatenation of up to 3 (thorough 4; C16: 4) of 16 pieces (69,905 texts at 4), TLC checks EngInRef / Written / ScalarStricter, every text is put through parse_identifier as {key: 7} and {key: [7, 8]} and TraceTau!TrKey judges modifier, count and field name; plus seeded random key texts (padding, odd white space, keyword-shaped words, indexed and dotted names, counts at the limits, bracket soups).",
          "note": COMMON_NOTE + "Oracle is sound only inside the rule shapes the generators produce (well typed by construction); float text beyond 15 significant digits and non-decimal numeric strings are left open.", "technique": T},
  "C03": {"level": "TLC enumerates every condition over identifiers, and/or/not, parentheses, all()/of(), casts, numbers and comparison operators up to 3 (thorough 4) alphabet elements, checks the Pratt model against the reference grammar (operands of and/or/not are predicates, identifiers exist), and each string is loaded for real: what the grammar rejects must be rejected, and every accepted rule is optimised under 6 (thorough 17) switch states, matched against adversarial documents (every value kind incl. 64-bit extremes, NaN, empty and mixed containers) and validated - any panic is a violation. Plus seeded random rules with non-mapping examples, rules at the sizes where indices and bitmaps change representation (129-136 matrix columns, 63-70 list members), well- and ill-typed bodies (what TauType says loads must load and is then evaluated on values of every kind), and random condition texts whose load outcome the grammar model decides.",
          "note": COMMON_NOTE + "Panics are observed with catch_unwind in a release build with overflow checks and debug assertions on.", "technique": T},
- "C04": {"level": "Model: the condition scanner as a TLA+ step machine over all strings of length <= 3 (thorough 4) over 28 character classes (progress, position in range, termination under weak fairness, agreement with the recursive definition); the pattern-text cascade over all strings <= 3 (thorough 4) over the 13 characters with a syntactic role (no slice out of range, write/read law). Conformance: every enumerated pattern string and 3k (thorough 60k) fuzz cases (token soups, pattern soups, YAML shapes in every position, mutated repository rule files, nesting to depth 64, numerals at the 64-bit and f64 boundaries, comparisons exactly at the ends of the i64 range, regexes with large compiled programs alone and in lists, non-ASCII numerics after ASCII digits, NaN and infinity constants) are loaded through from_str, from_value and the core entry points under a watchdog; outcome must be ok or err - never a panic, never a call that does not return - and for modelled inputs the outcome/kind/argument the specification predicts.",
+ "C04": {"level": "Model: the condition scanner as a TLA+ step machine over all strings of length <= 3 (thorough 4) over 28 character classes (progress, position in range, termination under weak fairness, agreement with the recursive definition); the pattern-text cascade over all strings <= 3 (thorough 4) over the 13 characters with a syntactic role (no slice out of range, write/read law). Conformance: every enumerated pattern string and 3k (thorough 60k) fuzz cases (token soups, pattern soups, YAML shapes in every position, mutated repository rule files, nesting to depth 64, numerals at the 64-bit and f64 boundaries, comparisons exactly at the ends of the i64 range, regexes with large compiled programs alone and in lists, non-ASCII numerics after ASCII digits, NaN and infinity constants) are loaded through from_str, from_value and the core entry points under a watchdog; outcome must be ok or err - never a panic, never a call that does not return - and for modelled inputs the outcome/kind/argument the specification predicts. The textual layer of mapping KEYS is specified too (spec/TauKeyText.tla: engine layer = condition tokeniser, identifier runs re-joined with one blank, Pratt parse, classification of the root; language layer = the documented key forms NAME, int()/flt()/str()/not()/all()(NAME), of(NAME, N) with their meaning pinned): MC_Key enumerates every concatenation of up to 3 (thorough 4; C16: 4) of 16 pieces (69,905 texts at 4), TLC checks EngInRef / Written / ScalarStricter, every text is put through parse_identifier as {key: 7} and {key: [7, 8]} and TraceTau!TrKey judges totality (key_panic: a panic or a call that does not return); plus seeded random key texts (padding, odd white space, keyword-shaped words, indexed and dotted names, counts at the limits, bracket soups).",
          "note": COMMON_NOTE + "Says nothing about serde_yaml's own parser beyond not panicking on the fuzzed inputs; stack exhaustion beyond depth 64 is out of scope.", "technique": T},
  "C05": {"level": "Exhaustive within the bound: every token string of length <= 5 (thorough 6: 299,593 strings) over {A,B,C,and,or,not,(,)} is parsed by the TLA+ Pratt model and by the reference grammar (TLC checks they agree and that text rendering tokenises back); every accepted string and every rejected one of up to 4 (5) tokens is loaded for real and matched under all {T,F,M} assignments of its identifiers; load outcome and every verdict must be what the reference parse yields.",
          "note": COMMON_NOTE + "Beyond the exhaustive bound: random condition trees (cast comparisons with parenthesised operands, identifier names in which keyword letters are followed by _ . # [ ]) re-spaced and re-parenthesised, read back by the reference grammar; random token soups whose load outcome the grammar model decides.", "technique": T},
@@ -284,11 +284,11 @@ MANIFEST_TEXT = {
          "note": COMMON_NOTE + "Schedules of the real threads are sampled (free-running) or forced (lock step), not enumerated.", "technique": T},
  "C13": {"level": "validate() is specified as a function of the bound denotation of the same switch class (TauRule!ValidateOk): ok iff no true_positives example fails and no true_negatives example matches, else a Validation error naming exactly the failing examples (markers planted in the examples; unmarked examples let the same document stand in both lists or twice in one), err (not panic) for a non-mapping example (text, number, null, lists incl. the empty one), flat dotted-key spellings of nested documents as examples. 800 (15k) seeded cases, unoptimised and two optimised forms. Model stage: the life-cycle machine itself (spec/TauRule.tla) is explored by TLC on its own (spec/MC_Life.tla): every schedule of opt / match / validate / serialise+reload / re-optimise / edit-the-example-lists calls on four small rules, up to 2 (thorough 3) objects and 4 (5) calls, with design-level invariants (DenSound, ValidateLaw, ReloadPlain, OnceOnly, SwBlind, the action property Pure); the schedule of every TRANSITION of the abstract state graph (history hidden by a VIEW) is executed call by call against real Rule objects (runner `sched`) and the recorded events validated like any other trace. validate() may come before any match (the language layer then pins the verdicts) and must follow the example lists the object holds NOW (they are public fields: action EditExamples); merge-key spellings (`<<`) of example documents.",
          "note": COMMON_NOTE, "technique": T},
- "C14": {"level": "Each object (unoptimised and optimised) is serialised, reloaded through from_str and from_value; the reloaded rule's detection and examples must equal the rule AS WRITTEN (canonical YAML comparison; identifier names differing only in case, quoting-sensitive strings) and its verdicts are held against the denotation of the not-optimised class; from_str/from_value must agree on load outcome; matching the reloaded rule must not panic. Model stage: the life-cycle machine itself (spec/TauRule.tla) is explored by TLC on its own (spec/MC_Life.tla): every schedule of opt / match / validate / serialise+reload / re-optimise / edit-the-example-lists calls on four small rules, up to 2 (thorough 3) objects and 4 (5) calls, with design-level invariants (DenSound, ValidateLaw, ReloadPlain, OnceOnly, SwBlind, the action property Pure); the schedule of every TRANSITION of the abstract state graph (history hidden by a VIEW) is executed call by call against real Rule objects (runner `sched`) and the recorded events validated like any other trace. One text in ten repeats its first identifier key with another definition: it must not load, and if it did, the definition evaluated and the one serialised must be the same.",
+ "C14": {"level": "Each object (unoptimised and optimised) is serialised, reloaded through from_str and from_value; the reloaded rule's detection and examples must equal the rule AS WRITTEN (canonical YAML comparison; identifier names differing only in case, quoting-sensitive strings) and its verdicts are held against the denotation of the not-optimised class; from_str/from_value must agree on load outcome; matching the reloaded rule must not panic. Model stage: the life-cycle machine itself (spec/TauRule.tla) is explored by TLC on its own (spec/MC_Life.tla): every schedule of opt / match / validate / serialise+reload / re-optimise / edit-the-example-lists calls on four small rules, up to 2 (thorough 3) objects and 4 (5) calls, with design-level invariants (DenSound, ValidateLaw, ReloadPlain, OnceOnly, SwBlind, the action property Pure); the schedule of every TRANSITION of the abstract state graph (history hidden by a VIEW) is executed call by call against real Rule objects (runner `sched`) and the recorded events validated like any other trace. One text in ten repeats its first identifier key with another definition: it must not load, and if it did, the definition evaluated and the one serialised must be the same. One `ser` text in eight is written in another SPELLING of the same YAML value (explicit null for an empty example list, an unreferenced identifier named by a number / float / boolean / null scalar, a document-start marker, a comment): the value path loads the value that very text parses to and must agree with the text path.",
          "note": COMMON_NOTE + "Identifier order in the serialised text is HashMap order and is ignored.", "technique": T},
  "C15": {"level": "The harness is built twice (default and feature ignore_case); both run the same seeded cases in which every string pattern is case-insensitive (default build writes the i prefix, ignore_case build does not); the merged trace is validated by TLC against one denotation and the case-insensitive language-layer oracle, not optimised and optimised. The pattern-text model is TLC-checked with IcBuild = TRUE, and every pattern string of length <= 3 over the 13 syntax characters is put through into_identifier in BOTH builds, each result judged with the build that produced it (kind, case flag, argument, regex source text). Field names keep their case in both builds (documents with a case-swapped name), and str(a) == str(b) in the condition stays exact. Booleans and numbers under a str() cast next to patterns on the same field (they are exact texts, not patterns: no build folds them), optimised with shake.",
          "note": COMMON_NOTE, "technique": T},
- "C16": {"level": "Every match is also made through a recording document; each find(key) on the root or a nested object must be a key the rule writes for that position (spec/TauKeys.tla: blocks and positions), never a synthetic matrix key; each document comes with two variants that differ only in fields no rule addresses (including one-character keys \\u{0}.., names that occur only as later segments of dotted keys, extra members inside nested objects, #text / value members of objects that stand where a text is expected) and must share its denotation. Four switch states per case. Documents also get members LITERALLY named like a dotted path of the rule ('s.t': v).",
+ "C16": {"level": "Every match is also made through a recording document; each find(key) on the root or a nested object must be a key the rule writes for that position (spec/TauKeys.tla: blocks and positions), never a synthetic matrix key; each document comes with two variants that differ only in fields no rule addresses (including one-character keys \\u{0}.., names that occur only as later segments of dotted keys, extra members inside nested objects, #text / value members of objects that stand where a text is expected) and must share its denotation. Four switch states per case. Documents also get members LITERALLY named like a dotted path of the rule ('s.t': v). The textual layer of mapping KEYS is specified too (spec/TauKeyText.tla: engine layer = condition tokeniser, identifier runs re-joined with one blank, Pratt parse, classification of the root; language layer = the documented key forms NAME, int()/flt()/str()/not()/all()(NAME), of(NAME, N) with their meaning pinned): MC_Key enumerates every concatenation of up to 3 (thorough 4; C16: 4) of 16 pieces (69,905 texts at 4), TLC checks EngInRef / Written / ScalarStricter, every text is put through parse_identifier as {key: 7} and {key: [7, 8]} and TraceTau!TrKey judges modifier, count and field name; plus seeded random key texts (padding, odd white space, keyword-shaped words, indexed and dotted names, counts at the limits, bracket soups). Whatever loads must ask for a field whose words are whole runs of the key text as written (key_fabricated).",
          "note": COMMON_NOTE + "The recording document resolves paths with its own reference walk; number and order of calls are not constrained.", "technique": T},
  "C17": {"level": "TLC checks on every vector and every permutation (arity <= 3, thorough 4) that the solver loops and the language layer are order-free for TRUE, and emits every commutative C06 case with its reversed writing as an alternative source; seeded random rules get three random reorderings of and/or operands, mapping entries, sequence entries and list members at positions not under a negation or none-of; TLC requires one denotation per case, not optimised and under three optimised switch sets. Unbounded part (thorough tier): spec/TauFold.tla - the verdict of each group loop depends only on order-free quantities (number of true operands, any false, any missing), an inductive invariant discharged by Apalache for every arity.",
          "note": COMMON_NOTE, "technique": T_FOLD},
